@@ -38,7 +38,7 @@ def build_system(c, inst, t0, tf, dt0, dense=False, rhs=None, constants=None):
     a = de.OdeSystem(rhs, y0=y0, t=(t0, tf), dt=dt0, dense_output=dense, **kw)
     a.method = method
     log = dict(ctrl=[], root=[], y0=y0)
-    if kind == "adaptive":
+    if kind == "adaptive" and not inst.get("real_controller"):
         a.integrator.update_timestep = ctrl_stub(c, a.integrator, log["ctrl"], max_redo=inst.get("max_redo", 1))
     return a, rhs, log
 
